@@ -224,44 +224,20 @@ fn u32class(n: u32) -> String {
         _ => iclass(n as i64),
     }
 }
-fn jfeatures(j: &J, out: &mut Vec<&'static str>) {
-    match j {
-        J::Num(n) => {
-            if n.to_bits() == (-0.0f64).to_bits() {
-                out.push("neg-zero");
-            }
-        }
-        J::Arr(a) => a.iter().for_each(|x| jfeatures(x, out)),
-        J::Obj(o) => {
-            if let Some((k, _)) = o.first() {
-                if k.is_empty() {
-                    out.push("first-key-empty");
-                } else if k.as_bytes()[0] == 0 {
-                    out.push("first-key-nul-leading");
-                }
-            }
-            o.iter().for_each(|(_, v)| jfeatures(v, out));
-        }
-        _ => {}
-    }
-}
+/// class of a JSON value: scalars exactly; containers by kind and length; objects whose first
+/// key is empty / starts with U+0000 form their own classes
 fn jclass(j: &J) -> String {
-    let base = match j {
-        J::Null => return "null".into(),
-        J::Bool(b) => return format!("{b}"),
-        J::Num(n) => return format!("num-{}", fclass(*n)),
-        J::Str(s) => return format!("str-{}", bclass(s.as_bytes())),
+    match j {
+        J::Null => "null".into(),
+        J::Bool(b) => format!("{b}"),
+        J::Num(n) => format!("num-{}", fclass(*n)),
+        J::Str(s) => format!("str-{}", bclass(s.as_bytes())),
         J::Arr(a) => format!("array-len{}", a.len()),
-        J::Obj(o) => format!("object-len{}", o.len()),
-    };
-    let mut f = Vec::new();
-    jfeatures(j, &mut f);
-    f.sort();
-    f.dedup();
-    if f.is_empty() {
-        base
-    } else {
-        format!("{base}[{}]", f.join(","))
+        J::Obj(o) => match o.first() {
+            Some((k, _)) if k.is_empty() => "object[first-key-empty]".into(),
+            Some((k, _)) if k.as_bytes()[0] == 0 => "object[first-key-nul-leading]".into(),
+            _ => format!("object-len{}", o.len()),
+        },
     }
 }
 fn vclass(v: &[f32]) -> String {
@@ -1204,6 +1180,8 @@ fn dom_f32() -> Vec<f32> {
         f32::NEG_INFINITY,
         f32::from_bits(0x7FC0_0000),
         f32::from_bits(0xFFC0_0000),
+        f32::from_bits(0x003F_FFFF),
+        f32::from_bits(0x803F_FFFF),
     ]
 }
 /// all strings over `alpha` of length <= n, shortlex
@@ -1227,7 +1205,7 @@ fn strings<T: Clone>(alpha: &[T], n: usize) -> Vec<Vec<T>> {
 fn dom_blob(t: Tier) -> Vec<Vec<u8>> {
     match t {
         Tier::Quick => strings(&[0x00u8, 0x01, 0x61, 0xFE, 0xFF], 4),
-        Tier::Thorough => strings(&[0x00u8, 0x01, 0x02, 0x61, 0x7F, 0x80, 0xFE, 0xFF], 4),
+        Tier::Thorough => strings(&[0x00u8, 0x01, 0x02, 0x61, 0x7F, 0x80, 0x81, 0xFD, 0xFE, 0xFF], 4),
     }
 }
 fn dom_text(t: Tier) -> Vec<String> {
@@ -1446,7 +1424,7 @@ fn composite_domain(cols: usize, t: Tier) -> Vec<KV> {
     ];
     {
         d.extend([
-            // the trickiest first (the 3-column domain is the first 18 (quick) / 26 (thorough) values)
+            // the trickiest first (the 3-column domain is the first 18 (quick) / 32 (thorough) values)
             KV::Blob(vec![0x00, 0xFF]),
             KV::Blob(vec![0xFF, 0x00]),
             KV::Blob(vec![0x00, 0x00]),
@@ -1491,7 +1469,7 @@ fn composite_domain(cols: usize, t: Tier) -> Vec<KV> {
             KV::Vector(vec![0.0, 0.0]),
         ]);
         if cols == 3 {
-            d.truncate(t.pick(18, 26));
+            d.truncate(t.pick(18, 32));
         }
     }
     d
